@@ -323,6 +323,21 @@ func (vc *VC) loopEnv(fr *Frame, li *loopInfo, st *State) *Env {
 			}
 		}
 	}
+	// range indices of every enclosing range loop, by loop ordinal: $idx#N
+	env.idxBy = map[int]*Val{}
+	for _, l := range fr.loops {
+		for _, ins := range l.head.Instrs {
+			if s, ok := ins.(*ssa.Store); ok {
+				if a, ok := s.Addr.(*ssa.Alloc); ok && a.Comment == "rangeindex" {
+					if c := fr.cellOf[a]; c != nil {
+						if v, ok := st.cells[c]; ok {
+							env.idxBy[l.ordinal] = v
+						}
+					}
+				}
+			}
+		}
+	}
 	// all live map ranges by ordinal
 	for r, rs := range fr.rangeOf {
 		if v, ok := st.cells[rs.visCell]; ok {
@@ -366,6 +381,20 @@ func (vc *VC) enterLoop(fr *Frame, li *loopInfo, cur *State) *State {
 			if lv, ok := fr.regs[lim]; ok && lv.S != "" {
 				vc.assume(implies(st.reach, "(< "+env2.idx.S+" (ite (< "+lv.S+" 0) 0 "+lv.S+"))"))
 			}
+		}
+	}
+	// a map range over a map type the loop never writes: every visited key is a key
+	for r, rs := range fr.rangeOf {
+		if !ms.ranges[r] || rs.m == nil {
+			continue
+		}
+		mt, ok := types.Unalias(rs.m.T).Underlying().(*types.Map)
+		if !ok || ms.maps[vc.u.mapKey(mt)] || ms.all {
+			continue
+		}
+		if v, ok := st.cells[rs.visCell]; ok {
+			ks := vc.u.sortOf(mt.Key())
+			vc.assume(implies(st.reach, fmt.Sprintf("(forall ((kk %s)) (! (=> (select %s kk) (select %s kk)) :pattern ((select %s kk))))", ks, v.S, rs.dom0, v.S)))
 		}
 	}
 	// automatic frame facts: memory below the entry allocation counter that the
